@@ -47,6 +47,9 @@ def sample_repr(case):
     return models.describe(case["model"])
 
 
+_SHARED = None
+
+
 def _eq(a, b):
     return np.allclose(np.asarray(a, dtype=float), np.asarray(b, dtype=float), rtol=1e-12, atol=1e-12)
 
@@ -95,6 +98,19 @@ def check(case):
         try:
             lp = LinearProgramExtractor().extract(P)
             c0 = extract_constant_term(P.objective)
+            # one extractor object used for many problems must give what a fresh one gives
+            global _SHARED
+            if _SHARED is None:
+                _SHARED = LinearProgramExtractor()
+            lp2 = _SHARED.extract(P)
+            for fld in ("c", "A_ub", "b_ub", "A_eq", "b_eq"):
+                a1, a2 = getattr(lp, fld), getattr(lp2, fld)
+                if (a1 is None) != (a2 is None) or (a1 is not None and not np.array_equal(a1, a2)):
+                    return Result.violation("reused-extractor-differs", f"LinearProgramExtractor reused across problems: {fld}="
+                                                                        f"{None if a2 is None else np.asarray(a2).tolist()} vs fresh "
+                                                                        f"{None if a1 is None else np.asarray(a1).tolist()}; {desc}", classes)
+            if list(lp2.variables) != list(lp.variables) or list(lp2.bounds) != list(lp.bounds):
+                return Result.violation("reused-extractor-differs", f"variables/bounds differ for a reused extractor; {desc}", classes)
         except Exception as ex:
             return Result.violation(f"extract-raises:{exc_label(ex)}", f"{desc}: {ex!r}", classes)
         if list(lp.variables) != names:
